@@ -199,7 +199,7 @@ func (x *schedX) thEvents(name string, qi int, settle, deliver bool) {
 		if settle {
 			x.s.Point("ev:settle")
 			w.LN.Settle(h)
-			w.Quotes[qi].Payments++
+			w.SyncPayments()
 			x.note("%s settle(q%d)", name, qi)
 		}
 		if deliver {
